@@ -151,6 +151,22 @@ pub fn check(prop: &str, scn: &Scenario, rf: &Ref, ex: &Exec) -> Verdict {
                 }
             }
         }
+        "C08" => c08(scn, rf, ex, &mut out),
+        "C10" => c10(scn, rf, ex, &mut out),
+        "C11" => c11(scn, rf, ex, &mut out),
+        "C13" => {
+            if returned(ex, &mut out).is_some() {
+                life_cycle(ex, false, &mut out);
+            }
+        }
+        "C14" => c14(scn, rf, ex, &mut out),
+        "C15" => {
+            if let Some(v) = returned(ex, &mut out) {
+                if let Err(d) = value_matches(scn, rf, v) {
+                    out.push(f("value", d));
+                }
+            }
+        }
         _ => return Verdict::Harness(format!("no oracle for {}", prop)),
     }
     if out.is_empty() {
@@ -368,4 +384,368 @@ pub fn nontrivial(ex: &Exec) -> bool {
     slots.sort();
     slots.dedup();
     slots.len() >= 2 && !ex.rec.decisions.is_empty()
+}
+
+// ---------------------------------------------------------------------------------------------
+// C13 / C14: life cycle of every token
+
+fn life_cycle(ex: &Exec, leaks_allowed: bool, out: &mut Vec<Finding>) {
+    if ex.table.invalid_drops > 0 {
+        out.push(f("invalid-drop", format!("{} drops of memory that does not hold a live token (never initialised or already dropped)", ex.table.invalid_drops)));
+    }
+    let mut leaks = 0;
+    let mut first_leak = 0;
+    for (id, l) in &ex.table.lives {
+        if l.dropped > l.created.max(1) || (l.created == 0 && l.dropped > 0) {
+            out.push(f("double-drop", format!("token {} created {} times, dropped {} times", id, l.created, l.dropped)));
+            break;
+        }
+        if l.created > 1 {
+            out.push(f("created-twice", format!("token {} created {} times: an element was produced twice", id, l.created)));
+            break;
+        }
+        if l.dropped < l.created {
+            leaks += 1;
+            if first_leak == 0 {
+                first_leak = *id;
+            }
+        }
+    }
+    if leaks > 0 && !leaks_allowed {
+        out.push(f("leak", format!("{} tokens never dropped, e.g. id {}", leaks, first_leak)));
+    }
+}
+
+// ---------------------------------------------------------------------------------------------
+// C08
+
+fn c08(scn: &Scenario, _rf: &Ref, ex: &Exec, out: &mut Vec<Finding>) {
+    if returned(ex, out).is_none() {
+        return;
+    }
+    let n = match scn.nt.first() {
+        Some(&(0, n)) if n >= 1 => n,
+        _ => return,
+    };
+    let log = &ex.rec.log;
+    if n == 1 {
+        if !ex.rec.frames.is_empty() {
+            out.push(f("max1-spawned", format!("Max(1): the runner was started {} times and {} threads were spawned", ex.rec.frames.len(), ex.rec.frames.iter().map(|x| x.registered).sum::<usize>())));
+        }
+        if let Some(e) = log.iter().find(|e| e.slot != 0 && matches!(e.kind, Kind::Call | Kind::Inner)) {
+            out.push(f("max1-off-thread", format!("Max(1): closure of stage {} ran on thread slot {}", e.stage, e.slot)));
+        }
+        return;
+    }
+    for (i, fr) in ex.rec.frames.iter().enumerate() {
+        if fr.registered > n {
+            out.push(f("too-many-spawned", format!("Max({}): runner frame {} spawned {} threads", n, i, fr.registered)));
+        }
+        if fr.max_live > n {
+            out.push(f("too-many-live", format!("Max({}): {} workers alive at once in frame {}", n, fr.max_live, i)));
+        }
+    }
+    // distinct threads per closure
+    let mut per_stage: BTreeMap<u16, Vec<u16>> = BTreeMap::new();
+    for e in log {
+        if matches!(e.kind, Kind::Call | Kind::Inner) {
+            let v = per_stage.entry(e.stage).or_default();
+            if !v.contains(&e.slot) {
+                v.push(e.slot);
+            }
+        }
+    }
+    for (stage, slots) in &per_stage {
+        if slots.len() > n {
+            let combine = matches!(*stage, STAGE_RED | STAGE_CMP | STAGE_KEY);
+            if combine && slots.len() == n + 1 && slots.contains(&0) {
+                // the cross-thread combine on the calling thread: n workers plus the caller
+                out.push(f(
+                    "reduce-operator/caller-combine",
+                    format!("Max({}): the reduce operator ran on {} distinct threads (the {} workers and the calling thread)", n, slots.len(), n),
+                ));
+            } else {
+                out.push(f("closure-threads", format!("Max({}): closure of stage {} ran on {} distinct threads {:?}", n, stage, slots.len(), slots)));
+            }
+        }
+    }
+}
+
+// ---------------------------------------------------------------------------------------------
+// C10
+
+/// events that mark "an element enters the pipeline": the first user code an element meets
+fn is_entry(scn: &Scenario, e: &Event) -> bool {
+    match scn.src {
+        Src::Range => e.kind == Kind::Call && e.stage == STAGE_SRC,
+        Src::SliceCloned => e.kind == Kind::Clone,
+        _ => {
+            if !scn.ops.is_empty() {
+                e.kind == Kind::Call && e.stage == 1
+            } else {
+                e.kind == Kind::Call && e.stage == STAGE_PRED
+            }
+        }
+    }
+}
+
+fn c10(scn: &Scenario, rf: &Ref, ex: &Exec, out: &mut Vec<Finding>) {
+    let log = &ex.rec.log;
+    let eager = scn.eager_sites();
+    // (a) termination
+    if let Some(a) = &ex.rec.abort {
+        if a.starts_with("budget") || a.starts_with("deadlock") || a.starts_with("stall") {
+            out.push(f("no-termination", format!("the short-circuit terminal did not return within {} steps although a match exists at source position {:?}: {}", ex.budget, rf.match_src_pos, a)));
+        }
+        return;
+    }
+    if ex.outcome.is_err() {
+        out.push(f("panic", format!("panicked: {:?}", ex.panic_msgs)));
+        return;
+    }
+    let m_src = match rf.match_src_pos {
+        Some(m) => m,
+        None => return, // nothing to stop early for
+    };
+    if scn.is_sequential() && scn.nt.iter().all(|x| x.1 == 1) {
+        // (d) sequential clause: nothing beyond the first match is evaluated
+        let allowed = rf.seq_calls_len.unwrap_or(rf.calls.len());
+        let mut want: BTreeMap<(u16, u64, u64), u32> = BTreeMap::new();
+        for c in &rf.calls[..allowed] {
+            *want.entry(*c).or_insert(0) += 1;
+        }
+        let got = sim_calls(log);
+        let beyond = got.iter().find(|(k, n)| want.get(*k).copied().unwrap_or(0) < **n);
+        let pulled = log.iter().filter(|e| e.kind == Kind::SrcNext && e.a != 0).count();
+        let over_pull = scn.src.is_iter() && pulled > m_src + 1;
+        if beyond.is_some() || over_pull {
+            let detail = format!(
+                "sequential mode: evaluated beyond the first match (source position {}): extra call {:?}; {} source elements pulled",
+                m_src, beyond, pulled
+            );
+            match eager.first() {
+                Some((_, name)) => out.push(f(&format!("eager-site/{}", name), detail)),
+                None => out.push(f("seq-beyond-match", detail)),
+            }
+        }
+        return;
+    }
+    // frames: the terminal's own frame is the last one; earlier frames are materialisations at construction
+    let nframes = ex.rec.frames.len();
+    if nframes == 0 {
+        return;
+    }
+    if nframes >= 2 {
+        // an earlier frame consumed input without any way of noticing a match
+        let fr = &ex.rec.frames[0];
+        let consumed = log[fr.log_begin..fr.log_end.min(log.len())].iter().filter(|e| is_entry(scn, e)).count();
+        let c = ex.rec.slots[fr.first_slot..fr.first_slot + fr.registered].iter().map(|s| s.chunk).max().unwrap_or(1);
+        let bound = m_src + 1 + (fr.registered + 1) * c * 2;
+        if consumed > bound {
+            let name = eager.first().map(|x| x.1).unwrap_or("?");
+            out.push(f(
+                &format!("eager-site/{}", name),
+                format!("the upstream stage was materialised while the chain was built: {} source elements consumed before the terminal started, first match at source position {}", consumed, m_src),
+            ));
+        }
+    }
+    let fr = &ex.rec.frames[nframes - 1];
+    let lo = fr.log_begin;
+    let hi = fr.log_end.min(log.len());
+    let flog = &log[lo..hi];
+    // the finders: slots on which the match predicate held (or, for `first`, which ended holding a result)
+    let finders: Vec<u16> = {
+        let mut v: Vec<u16> = flog.iter().filter(|e| e.kind == Kind::Ret && e.stage == STAGE_PRED && e.b == (!matches!(scn.term, Term::All(_))) as u64).map(|e| e.slot).collect();
+        v.sort();
+        v.dedup();
+        v
+    };
+    if finders.is_empty() {
+        return;
+    }
+    // E: the first worker end of a finder: skip_to_end has certainly been executed by then
+    let e_idx = match flog.iter().position(|e| e.kind == Kind::WorkerEnd && finders.contains(&e.slot)) {
+        Some(i) => i,
+        None => return,
+    };
+    // (b) the finder itself stops: no element enters on the finder between its match and its end
+    let finder = flog[e_idx].slot;
+    if let Some(mi) = flog.iter().position(|e| e.slot == finder && e.kind == Kind::Ret && e.stage == STAGE_PRED && e.b == (!matches!(scn.term, Term::All(_))) as u64) {
+        let after = flog[mi..e_idx].iter().filter(|e| e.slot == finder && is_entry(scn, e)).count();
+        if after > 0 {
+            out.push(f("finder-continues", format!("the thread that found the match let {} more elements enter the pipeline before it returned", after)));
+        }
+    }
+    // (c) after E: no pull from a by-value source; every other thread at most finishes the chunk it holds;
+    // threads that start after E do nothing
+    let after = &flog[e_idx + 1..];
+    let pulls_after = after.iter().filter(|e| e.kind == Kind::SrcNext && e.a != 0).count();
+    if pulls_after > 0 {
+        out.push(f("pull-after-exit", format!("{} elements were pulled from the source after the finder had published early exit and returned", pulls_after)));
+    }
+    let mut per_slot: BTreeMap<u16, usize> = BTreeMap::new();
+    for e in after {
+        if is_entry(scn, e) {
+            *per_slot.entry(e.slot).or_insert(0) += 1;
+        }
+    }
+    for (slot, cnt) in per_slot {
+        if slot == 0 {
+            continue;
+        }
+        let c = ex.rec.slots[slot as usize].chunk;
+        // registered after E?
+        let reg_after = after.iter().any(|e| e.kind == Kind::WorkerReg && e.a == slot as u64);
+        if reg_after && cnt > 0 && scn.src != Src::SliceCloned && scn.src != Src::Range && scn.src != Src::Vec {
+            out.push(f("late-worker-works", format!("a worker registered after early exit was published still processed {} elements", cnt)));
+        } else if cnt > c {
+            out.push(f("work-after-exit", format!("after early exit was published thread {} let {} more elements enter the pipeline; its chunk size is {}", slot, cnt, c)));
+        }
+    }
+}
+
+// ---------------------------------------------------------------------------------------------
+// C11
+
+fn c11(scn: &Scenario, _rf: &Ref, ex: &Exec, out: &mut Vec<Finding>) {
+    if returned(ex, out).is_none() {
+        return;
+    }
+    let c = match scn.cs.first() {
+        Some(&(0, Chunk::Exact(c))) | Some(&(0, Chunk::Raw(c))) if c >= 1 => c,
+        _ => return,
+    };
+    let log = &ex.rec.log;
+    // (a) the chunk size every worker is handed
+    for (i, fr) in ex.rec.frames.iter().enumerate() {
+        if !fr.info.chunk_is_exact || fr.info.chunk != c {
+            out.push(f("resolved-chunk", format!("frame {}: Exact({}) resolved to {} (exact: {})", i, c, fr.info.chunk, fr.info.chunk_is_exact)));
+        }
+        for s in fr.first_slot..fr.first_slot + fr.registered {
+            if ex.rec.slots[s].chunk != c {
+                out.push(f("worker-chunk", format!("frame {}: worker {} was handed chunk size {} instead of {}", i, s - fr.first_slot, ex.rec.slots[s].chunk, c)));
+                return;
+            }
+        }
+    }
+    // (b) by-value sources: bursts of `next` per worker. Two pulls of one worker can only be told apart when
+    // every pulled element causes an event on that worker before its next pull: the first stage's closure, a
+    // predicate, the for_each body, or the drop of the element (count). A closure-free reduce does not (its
+    // first element meets no user code), so it is left to observation (a).
+    let separable = !scn.ops.is_empty()
+        || matches!(scn.term, Term::Count | Term::ForEach | Term::Find(_) | Term::Any(_) | Term::All(_) | Term::FindWithIndex(_));
+    if scn.src.is_iter() && separable {
+        let nslots = ex.rec.slots.len();
+        let mut burst: Vec<(usize, bool)> = vec![(0, false); nslots]; // (length, saw None)
+        let check = |slot: usize, b: (usize, bool), out: &mut Vec<Finding>| {
+            if slot == 0 || b.0 == 0 && !b.1 {
+                return;
+            }
+            let ok = if b.1 { b.0 <= c } else { b.0 == c };
+            if !ok {
+                out.push(f("pull-size", format!("worker slot {} pulled {} elements in one go (end of source reached: {}), Exact({})", slot, b.0, b.1, c)));
+            }
+        };
+        for e in log {
+            let s = e.slot as usize;
+            if s >= nslots {
+                continue;
+            }
+            if e.kind == Kind::SrcNext {
+                if e.a != 0 {
+                    burst[s].0 += 1;
+                } else {
+                    burst[s].1 = true;
+                }
+            } else if matches!(e.kind, Kind::Call | Kind::Inner | Kind::Drop | Kind::Clone | Kind::WorkerEnd) {
+                let b = burst[s];
+                burst[s] = (0, false);
+                check(s, b, out);
+                if !out.is_empty() {
+                    return;
+                }
+            }
+        }
+    }
+    // (c) aligned blocks of the original source are processed by one thread, and blocks are started in order
+    if let Some(fr) = ex.rec.frames.first() {
+        let flog = &log[fr.log_begin..fr.log_end.min(log.len())];
+        let mut owner: BTreeMap<usize, u16> = BTreeMap::new();
+        let mut last_started: Option<usize> = None;
+        for e in flog {
+            if e.slot == 0 || !is_entry(scn, e) {
+                continue;
+            }
+            if scn.ops.is_empty() && !matches!(scn.src, Src::Range | Src::SliceCloned) {
+                // entries are predicate calls on final elements = source elements: ids are positions + 1
+            }
+            let pos = (e.a as usize).wrapping_sub(1);
+            if pos >= scn.vals.len() {
+                continue;
+            }
+            let k = pos / c;
+            match owner.get(&k) {
+                Some(s) if *s != e.slot => {
+                    out.push(f("block-split", format!("elements of block {} (Exact({})) were processed by threads {} and {}", k, c, s, e.slot)));
+                    return;
+                }
+                Some(_) => {}
+                None => {
+                    owner.insert(k, e.slot);
+                    if let Some(l) = last_started {
+                        if k < l {
+                            out.push(f("block-order", format!("block {} was started after block {}: a pull took more than one block", k, l)));
+                            return;
+                        }
+                    }
+                    last_started = Some(k);
+                }
+            }
+        }
+    }
+}
+
+// ---------------------------------------------------------------------------------------------
+// C14
+
+fn c14(scn: &Scenario, rf: &Ref, ex: &Exec, out: &mut Vec<Finding>) {
+    let site = || {
+        let maponly = !scn.ops.is_empty() && scn.ops.iter().all(|o| matches!(o, Op::Map { .. })) || (scn.ops.is_empty() && scn.src.has_adaptor());
+        format!(
+            "{}/{}/{}",
+            scn.term.name(),
+            if maponly { "map-only" } else { "general" },
+            if scn.src.known_len() { "known-len" } else { "unknown-len" }
+        )
+    };
+    if let Some(a) = &ex.rec.abort {
+        if a.starts_with("budget") || a.starts_with("deadlock") || a.starts_with("stall") {
+            out.push(f("hang", format!("with an injected panic the call did not finish: {}", a)));
+        }
+        return;
+    }
+    let fired = ex.fired.iter().any(|x| *x);
+    match (&ex.outcome, fired) {
+        (Ok(v), true) => out.push(f(
+            &format!("value-after-panic/{}", site()),
+            format!("a closure panicked (fault {:?}) but the call returned a value: {:?}", scn.faults, short_value(v)),
+        )),
+        (Ok(v), false) => {
+            if let Err(d) = value_matches(scn, rf, v) {
+                out.push(f("value", format!("no fault fired, yet: {}", d)));
+            }
+        }
+        (Err(_), true) => {}
+        (Err(m), false) => out.push(f("panic", format!("panicked although no injected fault fired: {} {:?}", m, ex.panic_msgs))),
+    }
+    let mut tmp = vec![];
+    life_cycle(ex, true, &mut tmp);
+    for x in tmp {
+        out.push(f(&format!("{}/{}", x.key, site()), x.detail));
+    }
+}
+
+fn short_value(v: &Value) -> String {
+    let s = format!("{:?}", v);
+    s.chars().take(160).collect()
 }
